@@ -224,7 +224,7 @@ pub const HAL_OPS: &[&str] = &[
     "vec_znx_big_normalize", "vec_znx_big_normalize_add_assign", "vec_znx_big_normalize_sub_assign", "vec_znx_big_normalize_negate", "vec_znx_big_add_normal",
     // DFT domain
     "vec_znx_dft_apply", "vec_znx_idft_apply", "vec_znx_idft_apply_tmpa", "vec_znx_dft_add_into", "vec_znx_dft_add_assign", "vec_znx_dft_add_scaled_assign",
-    "vec_znx_dft_sub", "vec_znx_dft_sub_assign", "vec_znx_dft_sub_negate_assign", "vec_znx_dft_copy", "vec_znx_dft_zero", "svp_prepare", "svp_apply_dft",
+    "vec_znx_dft_sub", "vec_znx_dft_sub_assign", "vec_znx_dft_sub_negate_assign", "vec_znx_dft_copy", "vec_znx_dft_zero", "vec_znx_dft_chain", "svp_prepare", "svp_apply_dft",
     "svp_apply_dft_to_dft", "svp_apply_dft_to_dft_assign", "vmp_prepare", "vmp_apply_dft", "vmp_apply_dft_to_dft", "vmp_zero", "cnv_prepare_left", "cnv_prepare_right",
     "cnv_prepare_self", "cnv_apply_dft", "cnv_pairwise_apply_dft", "cnv_by_const_apply",
 ];
@@ -704,6 +704,45 @@ pub fn run_case(op: &'static str, n: usize, seed: u64, opts: &Opts) -> Outcome {
                 "vec_znx_dft_add_scaled_assign" => go!(cx, module.vec_znx_dft_add_scaled_assign(&mut r.view(), rcol, &ad.rview(), acol, scale)),
                 _ => go!(cx, module.vec_znx_dft_copy(step, offset, &mut r.view(), rcol, &ad.rview(), acol)),
             };
+            if out.is_ok() {
+                cx.coeff_dft(module, &r, rcol);
+            }
+            out
+        }
+        "vec_znx_dft_chain" => {
+            // 2..5 in-place DFT-domain additions / subtractions on one accumulator (lazy modular accumulation, repeated rounding)
+            let len = cx.rs.usize_in(2, 5);
+            let bits = dft_bits(n, len + 1, 1, cx.opts.fft_safe).saturating_sub(4).max(2);
+            let r0 = cx.small(n, rc, rs_, rs_, bits);
+            let xs: Vec<VBuf> = (0..len).map(|_| cx.small(n, ac, asz, asz, bits)).collect();
+            let kinds: Vec<u64> = (0..len).map(|_| cx.rs.below(3)).collect();
+            let mut r = cx.dft_out(n, rc, rs_, rcap);
+            module.vec_znx_dft_apply(1, 0, &mut r.view(), rcol, &r0.rview(), rcol);
+            let xds: Vec<DftBuf> = xs
+                .iter()
+                .map(|x| {
+                    let mut d = DftBuf::new(n, ac, asz, asz);
+                    for c in 0..ac {
+                        module.vec_znx_dft_apply(1, 0, &mut d.view(), c, &x.rview(), c);
+                    }
+                    d
+                })
+                .collect();
+            cx.p("chain", kinds.iter().map(|k| ["add", "sub", "sub_negate"][*k as usize]).collect::<Vec<_>>().join(","));
+            key += &format!("|{kinds:?}");
+            for d in &xds {
+                cx.reg_in("x_dft", &d.g);
+            }
+            cx.reg_out("res", &r.g, Ctx::sel_dft(&r, rcol));
+            let out = go!(cx, {
+                for (d, k) in xds.iter().zip(&kinds) {
+                    match k {
+                        0 => module.vec_znx_dft_add_assign(&mut r.view(), rcol, &d.rview(), acol),
+                        1 => module.vec_znx_dft_sub_assign(&mut r.view(), rcol, &d.rview(), acol),
+                        _ => module.vec_znx_dft_sub_negate_assign(&mut r.view(), rcol, &d.rview(), acol),
+                    }
+                }
+            });
             if out.is_ok() {
                 cx.coeff_dft(module, &r, rcol);
             }
